@@ -357,7 +357,7 @@ pub fn in_domain(op: &OpKind, operands: &[&T]) -> bool {
         Div => absrng(operands[1], 0.25, 1e4),
         Recip => absrng(operands[0], 0.25, 1e4),
         Ln => rng(operands[0], 0.25, 1e4),
-        Exp | Softmax | Sigmoid => rng(operands[0], -3.0, 3.0),
+        Exp | Softmax | Sigmoid | ActSoftmax | ActSigmoid => rng(operands[0], -3.0, 3.0),
         Powf(e) => {
             if *e == e.trunc() && *e >= 1.0 {
                 absrng(operands[0], 0.0, 16.0)
